@@ -30,14 +30,11 @@ def _qualnames(tree: ast.Module) -> Dict[int, str]:
 
     def walk(n, q):
         out[id(n)] = q
+        nq = q
+        if isinstance(n, (ast.FunctionDef, ast.AsyncFunctionDef, ast.ClassDef)):
+            nq = n.name if q == '<module>' else q + '.' + n.name
         for c in ast.iter_child_nodes(n):
-            if isinstance(c, (ast.FunctionDef, ast.AsyncFunctionDef, ast.ClassDef)):
-                nq = c.name if q == '<module>' else q + '.' + c.name
-                out[id(c)] = q
-                for cc in ast.iter_child_nodes(c):
-                    walk(cc, nq)
-            else:
-                walk(c, q)
+            walk(c, nq)
     walk(tree, '<module>')
     return out
 
